@@ -992,6 +992,23 @@ class Interp:
             k = base.kind
         if isinstance(k, K.Rec):
             s = simp(idx.t) if isinstance(idx.kind, K._Str) else None
+            if s is not None and not z3.is_string_value(s):
+                # symbolic key: case split over the declared keys
+                if self.spec:
+                    kinds = {repr(fk) for fk in k.fields.values()}
+                    if len(kinds) != 1:
+                        raise Unsupported('record subscript with symbolic key over heterogeneous values')
+                    out = None
+                    for f in reversed(list(k.fields)):
+                        off, fk = k.slot(f)
+                        v = V(fk, base.terms[off + 1:off + 1 + fk.nleaves()])
+                        out = v if out is None else self.ite(idx.t == z3.StringVal(f), v, out)
+                    return out
+                for f in k.fields:
+                    if self.branch(idx.t == z3.StringVal(f)):
+                        return self.getitem(base, K.vstr(f), node)
+                self.implicit_raise(z3.BoolVal(False), 'KeyError', 'key outside the record', node)
+                raise PathEnd()
             if s is None or not z3.is_string_value(s):
                 raise Unsupported('record subscript with non-constant key (line %s)' %
                                   getattr(node, 'lineno', '?'))
@@ -1048,6 +1065,9 @@ class Interp:
     def slice(self, base, sl, node):
         if isinstance(base, PyObj):
             raise Unsupported('slice of %r' % (base,))
+        if isinstance(base.kind, K.Opt):
+            self.implicit_raise(z3.Not(K.opt_isnone(base)), 'TypeError', "'NoneType' object is not subscriptable", node)
+            base = K.opt_inner(base)
         if isinstance(base.kind, K._Str) and sl.step is None:
             n = z3.Length(base.t)
 
